@@ -198,7 +198,7 @@ def _label(c):
                   'length/alternative rotation (bytes and strings of 0,1,2,3,4,252..257,1000,65540 bytes; vectors of 0..2 elements; Bool; '
                   'boxed alternatives; nested objects): serialize(schema, v) == TL encoding (little-endian id and integers, framed and '
                   'padded strings), deserialize(encoding) returns v and consumes exactly all bytes; integers, hashes and byte contents '
-                  'symbolic', budget={'seconds': 120, 'paths': 600})
+                  'symbolic', budget={'seconds': 15, 'paths': 150})
 def constructor(w, i, shape):
     case = cases()[i]
     M, schemas = lib(auto=False)
@@ -231,6 +231,8 @@ def registry(w):
     u = U()
     bad = []
     for c in u.by_name.values():
+        if any(n is None for n, _, _ in c.fields) or '{' in c.text or '?' in c.text.split('=')[0].replace('.', ' ').split(' ')[1:2]:
+            continue            # built-in / generic declarations (int ? = Int; vector {t:Type} # [ t ] = Vector t; ...)
         s = schemas.get_by_name(c.name)
         if s is None:
             bad.append((c.name, 'not registered'))
@@ -325,3 +327,41 @@ def native(w):
     w.claim(f'{c.name}: serialize == TL encoding', k == 'ok' and ser == data)
     k2, r = call(schemas.deserialize, data)
     w.claim(f'{c.name}: deserialize inverts', k2 == 'ok' and r[1] == len(data) and same(w, r[0], exp))
+
+
+AUTO = [(o, f, i) for o, f in (('adnl.message.query', 'query'), ('adnl.message.answer', 'answer'), ('liteServer.query', 'data'),
+                               ('tonNode.query', None)) for i in ('liteServer.getTime', 'liteServer.getBlockHeader', 'liteServer.currentTime',
+                                                                  'liteServer.getAllShardsInfo', 'dht.ping') if f is not None]
+
+
+@obligation('C14.auto', 'C14', cases=[{'outer': o, 'field': f, 'inner': i} for o, f, i in AUTO],
+            fuc=[G + 'TlSchemas.serialize', G + 'TlSchemas.serialize_field', G + 'TlSchemas.deserialize'],
+            descr='auto-deserialise mode (the default): a TL object nested in a bytes field (given as a dict with @type) is serialised boxed '
+                  'inside the framed bytes, and parsing returns the nested object again (symbolic integers and hashes), consuming all bytes')
+def auto(w, outer, field, inner):
+    M, schemas = lib(auto=True)
+    u = U()
+    ci, co = u.by_name[inner], u.by_name[outer]
+    sh = Shape(1)
+    ival, iexp, ibody = gen_con(w, ci, inner, sh, 2, None)
+    ival, iexp = dict(ival), dict(iexp)
+    ival['@type'] = iexp['@type'] = inner
+    ienc = Seq.from_bytes(ci.id.to_bytes(4, 'little')) + ibody
+    val, exp, s = {}, {'@type': outer}, Seq.from_bytes(co.id.to_bytes(4, 'little'))
+    for name, t, cond in co.fields:
+        if name == field:
+            val[name], exp[name] = ival, iexp
+            s = s + ST.frame(w, ienc, ienc.length() // 8)
+        else:
+            v, e, q = gen(w, t, f'{outer}.{name}', sh, 1)
+            val[name], exp[name] = v, e
+            s = s + q
+    k, ser = call(schemas.serialize, schemas.get_by_name(outer), val)
+    w.claim(f'serialize does not raise ({ser if k != "ok" else ""})', k == 'ok')
+    if k == 'ok':
+        w.claim('nested object is serialised boxed inside the framed bytes', w.eq_seq(w.bytes_seq(ser), s))
+    k2, r = call(schemas.deserialize, SC._as_bytes(w, s))
+    w.claim(f'deserialize does not raise ({r if k2 != "ok" else ""})', k2 == 'ok')
+    if k2 == 'ok':
+        w.claim('consumes all bytes', r[1] == s.length() // 8)
+        w.claim('returns the nested object', same(w, r[0], exp))
